@@ -1440,3 +1440,31 @@ package crypto
 
 //@ func (SigningAlgorithm).String mode int props C09
 //@ assigns nothing
+
+// ---- Joint-Feldman End (C10): typestate part. The key summation helper is an ASSUMED contract (its memory safety
+// needs a counting argument: the number of non-disqualified instances equals `qualified`); everything else is proved.
+//@ func (*JointFeldmanState).sumUpQualifiedKeys trusted
+//@ requires s != nil
+//@ assigns nothing
+//@ ensures result0 != nil && fresh(result0) && result1 != nil && fresh(result1) && len(result2) == s.size && fresh(result2)
+
+//@ pred jfKept(s) = unchanged(s.dkgCommon) && unchanged(s.fvss) && unchanged(s.size) && unchanged(s.threshold) && unchanged(s.myIndex) && unchanged(s.processor) && unchanged(s.running) && forall(j, 0, s.size, unchanged(s.fvss[j].complaints) && unchanged(s.fvss[j].sharesTimeout) && unchanged(s.fvss[j].complaintsTimeout) && unchanged(s.fvss[j].feldmanVSSstate) && (old(s.fvss[j].disqualified) ==> s.fvss[j].disqualified))
+//@ func (*JointFeldmanState).End mode int props C10 C09
+//@ requires jfInv(s)
+//@ assigns s.jointRunning, s.fvss[:], ghost(s.processor)
+//@ ensures [reject-idle] !old(s.jointRunning) ==> iserr(result3, *dkgInvalidStateTransitionError) && nothingAssigned() && result0 == nil && result1 == nil && len(result2) == 0
+//@ ensures [reject-early] old(s.jointRunning) && (!old(s.fvss[0].sharesTimeout) || !old(s.fvss[0].complaintsTimeout)) ==> iserr(result3, *dkgInvalidStateTransitionError) && nothingAssigned() && result0 == nil && result1 == nil && len(result2) == 0
+//@ ensures [ends] old(s.jointRunning) && old(s.fvss[0].sharesTimeout) && old(s.fvss[0].complaintsTimeout) ==> !s.jointRunning
+//@ ensures [class] old(s.jointRunning) && old(s.fvss[0].sharesTimeout) && old(s.fvss[0].complaintsTimeout) && result3 != nil ==> iserr(result3, *dkgFailureError) && result0 == nil && result1 == nil && len(result2) == 0
+//@ ensures [keys] result3 == nil ==> result0 != nil && result1 != nil && len(result2) == s.size
+//@ ensures [kept] jfKept(s)
+//@ loop 1 invariant [range] 0 <= i && i <= s.size && 0 <= disqualifiedTotal && disqualifiedTotal <= i && s.jointRunning && old(s.jointRunning)
+//@ loop 1 invariant [kept] jfKept(s) && jfShape(s) && forall(j, 0, s.size, complaintsOK(&s.fvss[j]))
+//@ loop 1 invariant [pristine] i == 0 ==> nothingAssigned()
+//@ loop 1 invariant [timeouts-were-set] i > 0 ==> old(s.fvss[0].sharesTimeout) && old(s.fvss[0].complaintsTimeout)
+//@ loop 1 assigns s.fvss[:], ghost(s.processor)
+//@ loop 2 invariant [range] 0 <= i && i < s.size && 0 <= disqualifiedTotal && disqualifiedTotal <= i && s.jointRunning && old(s.jointRunning) && !s.fvss[i].disqualified
+//@ loop 2 invariant [kept] jfKept(s) && jfShape(s) && forall(j, 0, s.size, complaintsOK(&s.fvss[j]))
+//@ loop 2 invariant [timeouts-were-set] old(s.fvss[0].sharesTimeout) && old(s.fvss[0].complaintsTimeout) && s.fvss[i].sharesTimeout && s.fvss[i].complaintsTimeout
+//@ loop 2 assigns nothing
+//@ loop 3 invariant len(y) == s.size && len(jointy) == s.size && fresh(y) && !s.jointRunning && jfKept(s)
